@@ -140,6 +140,8 @@ enum Act {
 }
 
 struct EmitRec {
+    call: u64,
+    ret: u64,
     opid: u64,
     cid: Option<u64>,
     expected: bool,
@@ -308,6 +310,7 @@ fn scenario(
     let evil_fired = Arc::new(AtomicU64::new(0));
     let evil_armed = Arc::new(AtomicBool::new(false));
     let global_arc: Arc<Mutex<Option<(Arc<FilterCollector>, Dispatch)>>> = Arc::new(Mutex::new(None));
+    let global_stamp: Arc<Mutex<Option<(u64, u64)>>> = Arc::new(Mutex::new(None));
     type Ret = (Vec<EmitRec>, Vec<(Arc<FilterCollector>, Dispatch)>, Vec<(u64, u32)>);
     let mut hs: Vec<std::thread::JoinHandle<Ret>> = vec![];
     for (t, script) in scripts.iter().cloned().enumerate() {
@@ -322,6 +325,7 @@ fn scenario(
         let evil_fired = evil_fired.clone();
         let evil_armed = evil_armed.clone();
         let global_arc = global_arc.clone();
+        let global_stamp = global_stamp.clone();
         hs.push(std::thread::spawn(move || {
             let mut recs = vec![];
             let mut kept = vec![];
@@ -331,8 +335,8 @@ fn scenario(
                 match act {
                     Act::Hit(ci) => {
                         let opid = opctr.fetch_add(1, Ordering::SeqCst);
-                        emit(css[ci], opid);
-                        recs.push(EmitRec { opid, cid: None, expected: false, cs: ci });
+                        let (sp, _) = vlib::stamps::timed(|| emit(css[ci], opid));
+                        recs.push(EmitRec { call: sp.call, ret: sp.ret, opid, cid: None, expected: false, cs: ci });
                     }
                     Act::NewInstallHit { spec, cs, keep, evil } => {
                         let cid = cidctr.fetch_add(1, Ordering::SeqCst);
@@ -350,9 +354,9 @@ fn scenario(
                         }
                         let g = dispatch::set_default(&d);
                         let opid = opctr.fetch_add(1, Ordering::SeqCst);
-                        emit(css[cs], opid);
+                        let (sp, _) = vlib::stamps::timed(|| emit(css[cs], opid));
                         let c = css[cs];
-                        recs.push(EmitRec { opid, cid: Some(cid), expected: spec.accepts(c.level, c.target), cs });
+                        recs.push(EmitRec { call: sp.call, ret: sp.ret, opid, cid: Some(cid), expected: spec.accepts(c.level, c.target), cs });
                         drop(g);
                         if keep {
                             kept.push((a, d));
@@ -370,10 +374,10 @@ fn scenario(
                         if let Some(d) = d {
                             let g = dispatch::set_default(&d);
                             let opid = opctr.fetch_add(1, Ordering::SeqCst);
-                            emit(css[cs], opid);
+                            let (st, _) = vlib::stamps::timed(|| emit(css[cs], opid));
                             let c = css[cs];
                             let sp = pre_arcs[i].spec();
-                            recs.push(EmitRec { opid, cid: Some(pre_arcs[i].cid), expected: sp.accepts(c.level, c.target), cs });
+                            recs.push(EmitRec { call: st.call, ret: st.ret, opid, cid: Some(pre_arcs[i].cid), expected: sp.accepts(c.level, c.target), cs });
                             drop(g);
                         }
                     }
@@ -382,8 +386,10 @@ fn scenario(
                         let a = Arc::new(FilterCollector::new(cid, spec, true));
                         all.lock().unwrap().push(a.clone());
                         let d = Dispatch::new(Shared(a.clone()));
-                        if dispatch::set_global_default(d.clone()).is_ok() {
+                        let (st, ok) = vlib::stamps::timed(|| dispatch::set_global_default(d.clone()).is_ok());
+                        if ok {
                             *global_arc.lock().unwrap() = Some((a, d));
+                            *global_stamp.lock().unwrap() = Some((st.call, st.ret));
                         }
                     }
                 }
@@ -413,8 +419,18 @@ fn scenario(
                 .collect();
             let names: Vec<String> = stuck.iter().map(|(t, s)| format!("T{t} last passed `{}`", chaos::site_name(*s))).collect();
             let all_before_lock = stuck.iter().all(|(_, s)| chaos::is_before_lock(*s));
+            // a wait-for witness needs a holder: some unfinished thread holds the dispatcher
+            // lock (per the after-lock / unlocked hooks) while every unfinished thread is about
+            // to block on it.  Without a holder the stall is CPU starvation, not a deadlock.
+            let holders: Vec<(usize, u32)> = stuck.iter().map(|(t, _)| (*t, chaos::held_locks(*t))).filter(|x| x.1 > 0).collect();
+            if all_before_lock && holders.is_empty() {
+                // nobody holds the lock: keep waiting (the 60 s watchdog turns it into inconclusive)
+                last_progress = Instant::now();
+                out.count("stalls_without_a_lock_holder_waited_out", 1);
+                continue;
+            }
             if all_before_lock {
-                let w = witness(json!({"stuck_threads": names, "evil_collector_emitted_from_register_callsite": evil_fired.load(Ordering::SeqCst), "no_hook_progress_for_s": if evil_class { 1 } else { 3 }}));
+                let w = witness(json!({"stuck_threads": names, "evil_collector_emitted_from_register_callsite": evil_fired.load(Ordering::SeqCst), "no_hook_progress_for_s": if evil_class { 1 } else { 3 }, "threads_holding_the_dispatcher_lock": format!("{holders:?}")}));
                 if evil_class && evil_fired.load(Ordering::SeqCst) > 0 {
                     let mut sites: Vec<&str> = stuck.iter().map(|(_, s)| chaos::site_name(*s)).collect();
                     sites.sort();
@@ -427,11 +443,14 @@ fn scenario(
                 } else {
                     out.violation("deadlock: every unfinished thread is blocked acquiring the dispatcher lock", w);
                 }
-            } else {
-                out.inconclusive(format!("scenario {sidx} of shard {} stalled without a wait-for witness: {names:?}", args.shard));
+                out.emit();
+                std::process::exit(0);
             }
-            out.emit();
-            std::process::exit(0);
+            // no wait-for witness (threads not even at a lock): a stall, e.g. CPU starvation on a
+            // loaded machine; keep waiting, the 60 s watchdog below makes it inconclusive
+            last_progress = Instant::now();
+            out.count("stalls_without_a_wait_for_witness_waited_out", 1);
+            let _ = names;
         }
         if t0.elapsed() > Duration::from_secs(60 * run::slow_factor()) {
             out.inconclusive(format!("scenario {sidx} of shard {} exceeded the 60 s watchdog", args.shard));
@@ -481,7 +500,38 @@ fn scenario(
     }
 
     // ---- in-race oracle ---------------------------------------------------------------
+    // F30: an emission of a thread WITHOUT a scoped default whose cached interest was read as
+    // `always` before another thread's set_global_default completed is handed to the new
+    // global default without consulting its filter.  Narrow signature: the collector is the one
+    // that became the global default in THIS scenario, every delivery it rejects comes from a
+    // scope-less emission whose [call, ret] interval overlaps the set_global_default call.
+    let gstamp = *global_stamp.lock().unwrap();
+    let mut f30 = false;
+    if let (Some((gc, gr)), Some(g)) = (gstamp, pglobal.as_ref().map(|x| x.0.clone())) {
+        if g.bad_deliveries.load(Ordering::SeqCst) != 0 {
+            let sp = g.spec();
+            let rejected: Vec<u64> = g.log.lock().unwrap().iter().filter_map(|x| match x {
+                Got::Event { id, level, target } | Got::NewSpan { id, level, target, .. } if !sp.accepts(*level, *target) => Some(*id),
+                _ => None,
+            }).collect();
+            let all_match = !rejected.is_empty() && rejected.iter().all(|id| {
+                recs.iter().any(|r| r.opid == *id && r.cid.is_none() && r.call < gr && r.ret > gc)
+            });
+            if all_match {
+                f30 = true;
+                out.finding(
+                    "F30",
+                    "an emission by a thread without a scoped default that read its callsite's cached interest as `always` before another thread's set_global_default completed is delivered to the new global default although that collector's filter rejects it (Event::dispatch does not re-ask enabled)",
+                    witness(json!({"global_collector": sp.code(), "rejected_op_ids": rejected, "set_global_default_stamps": [gc, gr],
+                                   "emissions": recs.iter().filter(|r| rejected.contains(&r.opid)).map(|r| format!("op{} [{}..{}] scope-less", r.opid, r.call, r.ret)).collect::<Vec<_>>()})),
+                );
+            }
+        }
+    }
     for a in &allv {
+        if f30 && Some(a.cid) == pglobal.as_ref().map(|x| x.0.cid) {
+            continue;
+        }
         if a.bad_deliveries.load(Ordering::SeqCst) != 0 {
             out.violation(
                 format!("during the race collector c{} was handed an emission its own filter rejects", a.cid),
